@@ -74,10 +74,13 @@ func (self *Compiler) compileStmt(node ast.AnalyzedStatement) {
 			self.compileExpr(node.ReturnValue)
 		}
 
+		self.leaveTryBlocks(0, node.Span())
 		self.insert(newOneStringInstruction(Opcode_Jump, self.CurrFn().CleanupLabel), node.Span())
 	case ast.BreakStatementKind:
+		self.leaveTryBlocks(self.currLoop().tryDepth, node.Span())
 		self.insert(newOneStringInstruction(Opcode_Jump, self.currLoop().labelBreak), node.Span())
 	case ast.ContinueStatementKind:
+		self.leaveTryBlocks(self.currLoop().tryDepth, node.Span())
 		self.insert(newOneStringInstruction(Opcode_Jump, self.currLoop().labelContinue), node.Span())
 	case ast.LoopStatementKind:
 		node := node.(ast.AnalyzedLoopStatement)
